@@ -22,7 +22,9 @@ def _under_root(root, rel):
 
 def _dims_stay_below(args, result):
     """dimensions_part(dimensions) joined below a root never leaves the root (no '..' / absolute segment survives)"""
-    return _under_root('/r/cache', result) and _under_root('C:/r', result.replace('\\', '/')) and not os.path.isabs(result)
+    # (no leading or trailing '/': what the level-directory contract in c05_paths assumes about the dimension sub-path)
+    return _under_root('/r/cache', result) and _under_root('C:/r', result.replace('\\', '/')) and not os.path.isabs(result) \
+        and not result.startswith('/') and not result.endswith('/')
 
 
 contract('mapproxy.cache.path:dimensions_part', props=['C09'], verify=False,
